@@ -6,7 +6,7 @@
 //! {"k":"hexstr","v":bytes-spec} (a "0x…" string) {"k":"raw","v":bytes-spec}.
 //!
 //! Bytes spec: "hex" | {"rep":n,"pat":spec} | {"cat":[spec…]} | {"utf8":text}
-//! | {"doc":node} (the rendered document).
+//! | {"doc":node} (the rendered document) | {"hex":"hex"}.
 
 use serde_json::Value;
 
@@ -74,6 +74,8 @@ pub fn bytes(spec: &Value) -> Result<Vec<u8>, String> {
                     out.extend(bytes(p)?);
                 }
                 Ok(out)
+            } else if let Some(h) = o.get("hex") {
+                bytes(h)
             } else if let Some(t) = o.get("utf8") {
                 Ok(t.as_str().ok_or("utf8 text")?.as_bytes().to_vec())
             } else if let Some(d) = o.get("doc") {
